@@ -1151,3 +1151,119 @@ func handlerTags(c *core.Ctx, r *Roles, fn *ssa.Function) []string {
 	}
 	return tags
 }
+
+func init() {
+	register(&Rule{ID: "TS-CONF-LIST", Floor: 1,
+		Doc: "every list-valued configuration setting that the server turns into response headers is applied element by element with an accumulating call: in the loop over the list the header is written with Header.Add, never with Header.Set under a loop-invariant key (Set keeps only the last element, so all but one configured value lose their effect)",
+		Run: func(c *core.Ctx) {
+			n := 0
+			for _, fn := range serverFuncs(c) {
+				for _, b := range fn.Blocks {
+					for _, in := range b.Instrs {
+						ia, ok := in.(*ssa.IndexAddr)
+						if !ok {
+							continue
+						}
+						root, pth := accessPath(an.Strip(ia.X))
+						if len(pth) == 0 || root == nil {
+							continue
+						}
+						// the slice is a field of a struct declared in the config package
+						fieldName := pth[len(pth)-1]
+						if fieldName == "[]" || !fieldOfConfig(c, ia.X) {
+							continue
+						}
+						h := loopHeader(b)
+						if h == nil {
+							continue
+						}
+						// element value and everything derived from it
+						derived := map[ssa.Value]bool{}
+						var flow func(v ssa.Value, d int)
+						flow = func(v ssa.Value, d int) {
+							if derived[v] || d > 8 || v.Referrers() == nil {
+								return
+							}
+							derived[v] = true
+							for _, ref := range *v.Referrers() {
+								switch x := ref.(type) {
+								case *ssa.UnOp:
+									flow(x, d+1)
+								case *ssa.BinOp:
+									flow(x, d+1)
+								case *ssa.Convert:
+									flow(x, d+1)
+								case *ssa.ChangeType:
+									flow(x, d+1)
+								case *ssa.Phi:
+									flow(x, d+1)
+								case *ssa.MakeInterface:
+									flow(x, d+1)
+								}
+							}
+						}
+						flow(ia, 0)
+						var adds, sets []ssa.CallInstruction
+						for _, lb := range fn.Blocks {
+							if !(an.BlockReaches(h, lb) && an.BlockReaches(lb, h)) {
+								continue
+							}
+							for _, li := range lb.Instrs {
+								call, ok := li.(ssa.CallInstruction)
+								if !ok {
+									continue
+								}
+								isAdd := an.IsMethod(call, "net/http", "Header", "Add")
+								isSet := an.IsMethod(call, "net/http", "Header", "Set")
+								if !isAdd && !isSet {
+									continue
+								}
+								_, args := an.CallArgs(call)
+								if len(args) != 2 || !derived[args[1]] {
+									continue
+								}
+								if isAdd {
+									adds = append(adds, call)
+								} else if _, constKey := an.Strip(args[0]).(*ssa.Const); constKey || !derived[args[0]] {
+									sets = append(sets, call)
+								}
+							}
+						}
+						if len(adds)+len(sets) == 0 {
+							continue
+						}
+						n++
+						key := fmt.Sprintf("list:%s|%s", fieldName, kn(c.P.FuncName(fn)))
+						if len(sets) > 0 {
+							c.Fail(key, sets[0].Pos(), "the loop over the configured list %s in %s writes the header with Set at %s: each element overwrites the previous one and only the last configured value is sent", fieldName, c.P.FuncName(fn), c.P.Pos(sets[0].Pos()))
+						} else {
+							c.Pass(key, adds[0].Pos(), "every element of the configured list %s is added to the response headers (Header.Add in the loop at %s)", fieldName, c.P.Pos(adds[0].Pos()))
+						}
+					}
+				}
+			}
+			if n == 0 {
+				c.Unresolved("lists", "no loop turning a list-valued configuration setting into response headers was found")
+			}
+		}})
+}
+
+// fieldOfConfig: v is (a load of) a field of a struct type declared in the config package.
+func fieldOfConfig(c *core.Ctx, v ssa.Value) bool {
+	v = an.Strip(v)
+	for i := 0; i < 6; i++ {
+		switch x := v.(type) {
+		case *ssa.UnOp:
+			v = x.X
+			continue
+		case *ssa.FieldAddr:
+			n := an.NamedOf(an.Deref(x.X.Type()))
+			return n != nil && n.Obj().Pkg() != nil && n.Obj().Pkg().Path() == c.P.Module+"/config"
+		case *ssa.Field:
+			n := an.NamedOf(x.X.Type())
+			return n != nil && n.Obj().Pkg() != nil && n.Obj().Pkg().Path() == c.P.Module+"/config"
+		}
+		return false
+	}
+	return false
+}
